@@ -21,7 +21,7 @@ import numpy
 from .. import common, eems
 from ..common import enc_str
 
-HEADERS = ["a", "b", "col 3", "x,y", 'q"uote', "é", "A", "value", "1", "new\nline", " lead", "", "a"]
+HEADERS = ["a", "b", "col 3", "x,y", 'q"uote', "é", "A", "value", "1", "new\nline", " lead", "", "a", "trail ", " b", "  both  "]
 DOUBLES = [0.0, -0.0, 1.0, -1.0, 0.1, 1 / 3.0, 5e-324, 2.2250738585072014e-308, 2.225073858507201e-308, 1.7976931348623157e+308, -1.7976931348623157e+308,
            1e16, 1e15, 123456789.12345679, 9007199254740993.0, 1e-7, 1.5e-5, 0.30000000000000004, 2.5, -99.0, 1e22, 1e23, 4.9e-324, 1e-300, 3.141592653589793]
 CELLS = ["1", "2.5", "-3", "2.7", "-1.6", "0.9", "3.5", "1.5", "-0.5", "99.99", " 4 ", "1e3", "1_0", ".5", "5.", "+7", "0", "-0.0", "1E-2", "007"]
@@ -34,17 +34,21 @@ def write_file(path, text):
 
 
 def read_impl(path, field, missing, integer):
-    """real EEMSRead body"""
+    """real EEMSRead, evaluated the way a program evaluates it: arguments as written (names, numbers, type names), cleaned by
+    `validate_params`, body run by `Command.run`.  Exceptions of the body that are no MPilot errors arrive wrapped; they are reported as raw."""
     from mpilot.libraries.eems.csv.io import EEMSRead
-    from mpilot.exceptions import MPilotError
-    kw = {"InFileName": path, "InFieldName": field}
+    from mpilot.arguments import Argument
+    from mpilot.exceptions import MPilotError, UnexpectedError
+    args = [Argument("InFileName", path, 6), Argument("InFieldName", field, 7)]
     if missing is not None:
-        kw["MissingVal"] = missing
+        args.append(Argument("MissingVal", missing, 8))
     if integer is not None:
-        kw["DataType"] = int if integer else float
+        args.append(Argument("DataType", "Integer" if integer else "Float", 9))
     try:
         with numpy.errstate(all="ignore"):
-            return ("ok", EEMSRead("R", [], lineno=5).execute(**kw))
+            return ("ok", EEMSRead("R", args, lineno=5).result)
+    except UnexpectedError as e:
+        return ("raw", type(e.exc).__name__, str(e.exc))
     except MPilotError as e:
         return ("mp", type(e).__name__, str(e))
     except Exception as e:
